@@ -76,7 +76,12 @@ func c08ErrClass(err error) string {
 	case errors.Is(err, io.EOF):
 		return "eom" // io.EOF from ensureData, wrapped by the ClassAd layer: the message ended
 	}
-	return errClass(err)
+	if c := errClass(err); !strings.HasPrefix(c, "other:") {
+		return c
+	}
+	// wording the harness does not know: "an error", with no text in the compared line (diffBatch
+	// accepts "other:" wherever the model also reports an error)
+	return "other:"
 }
 
 // canonExpr renders an expression up to the one equivalence C08 allows: a minus sign applied to a
